@@ -41,7 +41,8 @@ SimNext ==
   \/ \E c \in Owners :
        \/ OGet(c) /\ Say(IF M.gmp # "global" /\ c \notin Kept THEN <<K(c, "meter"), K(c, "sdk.Meter:" \o MeterOf[c])>> ELSE <<>>)
        \/ OMeter(c) /\ Say(<<K(c, "meter")>> \o (IF M.pdel # "none" THEN <<K(c, "sdk.Meter:" \o MeterOf[c])>> ELSE <<>>))
-       \/ OInst(c) /\ Say(<<K(c, "inst")>> \o (IF M.handle[c] # "global" \/ M.mdel[MeterOf[c]] # "none"
+       \/ OInst(c) /\ Say(<<K(c, "inst")>> \o (IF c \in SdkObs THEN <<K(c, "sdk.Meter:" \o MeterOf[c]), K(c, "sdk.Inst:" \o c)>>
+                                                ELSE IF M.handle[c] # "global" \/ M.mdel[MeterOf[c]] # "none"
                                                 THEN <<K(c, "sdk.Inst:" \o c)>> ELSE <<>>))
        \/ (OMeterCompute(c) \/ OMeterInsert(c)) /\ Say(<<>>)
        \/ RCall(c) /\ Say(<<>>)
